@@ -65,7 +65,7 @@ class C19(P.Property):
                    "exception type is prescribed only for out-of-range reads (IndexError) and closed-array use (ValueError); "
                    "a refused write may raise any exception"]
     probe_names = ["neg_read_after_reopen", "neg_read_last_chunk_unopened", "slice_fail_pos_ge1", "neg_step_slice_fail",
-                   "len_not_multiple_of_chunk", "chunk_gt_len", "op_while_closed", "reopen", "step0_slice", "from_list", "bystander_array", "interleaved_iteration"]
+                   "len_not_multiple_of_chunk", "chunk_gt_len", "op_while_closed", "reopen", "step0_slice", "from_list", "bystander_array", "interleaved_iteration", "write_during_iteration"]
 
     def setup(self):
         from .. import world
@@ -158,7 +158,10 @@ class C19(P.Property):
             elif op == "close":
                 steps.append({"op": op, "ctx": rng.random() < 0.3})
             elif op == "iter2":
-                steps.append({"op": op, "reads": [rng.randrange(n) for _ in range(rng.randint(1, 4))], "twin": rng.random() < 0.3})
+                steps.append({"op": op, "reads": [rng.randrange(n) for _ in range(rng.randint(1, 4))], "twin": rng.random() < 0.3,
+                              # writes made while the iterator is suspended: [after how many items, index, value]; a list iterator sees them
+                              "writes": ([[rng.randrange(n), rng.randrange(n), hx(rng.randbytes(rng.randint(0, isz)))] for _ in range(rng.randint(1, 3))]
+                                         if rng.random() < 0.4 else [])})
             elif op == "by":
                 bd = rng.choice(["set", "set", "get", "reopen", "clear"])
                 steps.append({"op": "by", "do": bd, "i": rng.randrange(bystander["n"]), "v": hx(rng.randbytes(rng.randint(0, bystander["isz"])))})
@@ -434,12 +437,21 @@ class C19(P.Property):
                     # iteration interleaved with other reads of the same array (and optionally a second iterator)
                     probe("interleaved_iteration")
 
+                    writes = {}
+                    for wk, wj, wv in st.get("writes") or []:
+                        writes.setdefault(wk % n, []).append((wj % n, unhx(wv)))
+                    expected_iter = []
+
                     def walk():
                         it = iter(a)
                         it2 = iter(a) if st.get("twin") else None
                         out_, bad_ = [], None
                         for k in range(n):
+                            expected_iter.append(model[k])  # what a list iterator yields now
                             out_.append(next(it))
+                            for wj, wv in writes.get(k, ()):
+                                a[wj] = wv
+                                model[wj] = pad(wv, isz)
                             j = st["reads"][k % len(st["reads"])] % n
                             if a[j] != model[j]:
                                 bad_ = ("read", j)
@@ -454,8 +466,11 @@ class C19(P.Property):
                         return out_, bad_
                     got = outcome(walk)
                     obs.append((op, got[0]))
-                    if got[0] != "ok" or got[1][0] != model or got[1][1] is not None:
-                        what = got if got[0] != "ok" else (got[1][1] or [i for i in range(n) if got[1][0][i] != model[i]][:5])
+                    if writes:
+                        probe("write_during_iteration")
+                        mutated = True
+                    if got[0] != "ok" or got[1][0] != expected_iter or got[1][1] is not None:
+                        what = got if got[0] != "ok" else (got[1][1] or [i for i in range(n) if got[1][0][i] != expected_iter[i]][:5])
                         viol.append(V("C19.read", "MODEL_MISMATCH", f"step {si}: iteration interleaved with other reads differs from the list model: {what!r:.80}", step=si))
                         break
                 elif op == "reversed":
